@@ -36,6 +36,7 @@ MIN_REACH = {
     "refusals_checked": {"quick": 400, "thorough": 6000},
     "missing_positions_checked": {"quick": 1500, "thorough": 30000},
     "full_reaps_after_partial": {"quick": 40, "thorough": 500},
+    "subsets_with_failed_write_leftovers": {"quick": 80, "thorough": 1200},
 }
 TIME_BUDGET = {"quick": 400, "thorough": 3400}
 CASE_TIMEOUT = {"quick": 300, "thorough": 900}
@@ -113,6 +114,13 @@ def _outputs(kind, v):
     if kind.startswith("multi"):
         return {"y": v[0], "z": v[1]}
     return {"y": v}
+
+
+class _Unwritable(object):
+    """A result whose pickling fails half-way (like a full disk)."""
+
+    def __reduce__(self):
+        raise OSError(28, "No space left on device (injected)")
 
 
 def run_case(ctx, case):
@@ -193,10 +201,36 @@ def run_case(ctx, case):
         return c.reap(**kw)
 
     nviol = 0
+    debris = []
     for S in subsets:
         S = set(S)
         present(S)
         subcase = dict(case, subset=sorted(S))
+        # leftovers of failed writes: a grow of an unfinished batch died while writing its result (disk full, result not
+        # picklable, worker killed), done with the crop's own writer so that the leftover is named as the real code names
+        # it.  Such a batch is still unfinished: its debris must change nothing about partial reaps and refusals.
+        for fdeb in debris:
+            if os.path.exists(fdeb):
+                os.remove(fdeb)
+        del debris[:]
+        if (case["idx"] + len(S) + min(S)) % 3 == 0:
+            from xyzpy.gen import cropping as _cr
+            unfinished = sorted(set(range(1, B + 1)) - S)
+            listing0 = set(os.listdir(os.path.join(loc, "results")))
+            for i in unfinished[:1 + (case["idx"] % 2)]:
+                try:
+                    _cr.write_to_disk(_Unwritable(), os.path.join(loc, "results", "xyz-result-%d.jbdmp" % i))
+                except OSError:
+                    pass
+            for f in set(os.listdir(os.path.join(loc, "results"))) - listing0:
+                debris.append(os.path.join(loc, "results", f))
+            bad_final = [f for f in debris if os.path.basename(f) in ("xyz-result-%d.jbdmp" % i for i in unfinished)]
+            if bad_final:
+                ctx.violation(subcase, "a failed result write left a file under the final name: %s" % bad_final, dict(sig, oracle="failed-write-invisible"))
+                nviol += 1
+                break
+            subcase["debris"] = [os.path.basename(f) for f in debris]
+            ctx.count("subsets_with_failed_write_leftovers")
         before = cropkit.tree_snapshot(loc)
         # --- refused without allow_incomplete, untouched ---
         try:
